@@ -64,17 +64,36 @@ type dest struct {
 	// failCid: fail (once) the put of this block
 	failCid    string
 	failCidHit bool
+	// failCbor: fail (once) the n-th put of a dag-cbor block (shard and
+	// cluster-DAG nodes)
+	failCbor int
+	ncbor    int
 }
+
+// putLog is the global arrival order of block puts (all destinations).
+var (
+	putLogMu sync.Mutex
+	putLog   []cid.Cid
+)
 
 type ipfsSvc struct{ d *dest }
 
 func (s *ipfsSvc) BlockPut(ctx context.Context, in *api.NodeWithMeta, out *struct{}) error {
 	d := s.d
+	putLogMu.Lock()
+	putLog = append(putLog, in.Cid)
+	putLogMu.Unlock()
 	d.mu.Lock()
 	defer d.mu.Unlock()
 	d.nput++
 	if d.failAt > 0 && (d.nput == d.failAt || (d.always && d.nput > d.failAt)) {
 		return fmt.Errorf("injected block put failure")
+	}
+	if in.Cid.Prefix().Codec == cid.DagCBOR {
+		d.ncbor++
+		if d.failCbor > 0 && d.ncbor == d.failCbor {
+			return fmt.Errorf("injected block put failure (transient, shard node)")
+		}
 	}
 	if d.failCid != "" && !d.failCidHit && in.Cid.String() == d.failCid {
 		d.failCidHit = true
@@ -166,13 +185,16 @@ func genContent(seed int64, n int) []byte {
 	return b
 }
 
-func drawTree(t *rapid.T, depth, chunk int) *node {
+func drawTree(t *rapid.T, depth, chunk int, forceDir bool) *node {
 	names := []string{"a", "b.txt", ".hidden", "ünï", "with space", ".config", "z"}
 	var mk func(d int, name string) *node
 	mk = func(d int, name string) *node {
-		if d < depth && rapid.IntRange(0, 2).Draw(t, "isdir") == 0 {
+		if d < depth && (rapid.IntRange(0, 2).Draw(t, "isdir") == 0 || (forceDir && d == 0)) {
 			n := &node{name: name, dir: true}
 			k := rapid.IntRange(0, 4).Draw(t, "nchildren")
+			if forceDir && d == 0 {
+				k += 2
+			}
 			used := map[string]bool{}
 			for i := 0; i < k; i++ {
 				nm := rapid.SampledFrom(names).Draw(t, "name")
@@ -418,6 +440,7 @@ func resetFixture() {
 		d.order = nil
 		d.nput, d.failAt, d.always = 0, 0, false
 		d.failCid, d.failCidHit = "", false
+		d.failCbor, d.ncbor = 0, 0
 		d.mu.Unlock()
 	}
 	cluster.mu.Lock()
@@ -445,7 +468,7 @@ func plist(ps []peer.ID) string {
 
 var optNorm = cmpx.Norm{DropAllocs: true}
 
-const rule = "case = file tree (0-2 levels, files of size 0, 1, chunk-1, chunk, chunk+1, 3 chunks + r, 7 chunks, names incl. hidden, unicode, spaces; a single file, a single directory or several entries with wrap) x chunker (size-32/64/256, rabin-16-32-64) x layout x raw leaves x CID version x hash function x pin options x destinations (1-3 real libp2p hosts with a recording BlockPut, or local) x sharding with a shard size giving 1-6 shards (and a class with > 5984 links in one shard) x optional block-put failure at block k of destination d (once or from then on) or a transient failure of the put of a multi-chunk file's first chunk on every destination x optional pin failure; oracle: delivered blocks closed under links from the root, every file reads back byte-identical through DagReader over delivered blocks only, root(sharded) = root(unsharded) = root of a reference importer built from go-unixfs primitives, pin log exactly as the statement says, failure of every destination for some block => error and no root/meta pin; non-trivial = >= 2 files with one larger than a chunk, or >= 2 shards, or a fault; distinct by rendering"
+const rule = "case = file tree (0-2 levels, files of size 0, 1, chunk-1, chunk, chunk+1, 3 chunks + r, 7 chunks, names incl. hidden, unicode, spaces; a single file, a single directory or several entries with wrap) x chunker (size-32/64/256, rabin-16-32-64) x layout x raw leaves x CID version x hash function x pin options x destinations (1-3 real libp2p hosts with a recording BlockPut, or local) x sharding with a shard size giving 1-6 shards (and a class with > 5984 links in one shard) x optional block-put failure at block k of destination d (once or from then on) or a transient failure of the put of a multi-chunk file's first chunk, or of the n-th shard node, on every destination; one case in six adds a destination nobody can reach x optional pin failure; oracle: delivered blocks closed under links from the root, every file reads back byte-identical through DagReader over delivered blocks only, root(sharded) = root(unsharded) = root of a reference importer built from go-unixfs primitives, pin log exactly as the statement says, failure of every destination for some block => error and no root/meta pin; non-trivial = >= 2 files with one larger than a chunk, or >= 2 shards, or a fault; distinct by rendering"
 
 func TestAdd(t *testing.T) {
 	leg := ev.L("add", rule)
@@ -475,7 +498,9 @@ func TestAdd(t *testing.T) {
 			ic.chunker, chunk = "size-32", 32
 			top = &node{name: "big", content: genContent(7, 32*6100)}
 		} else {
-			top = drawTree(t, 2, chunk)
+			// half of the cases start from a directory with several entries (more
+			// file boundaries for shards to fall on)
+			top = drawTree(t, 2, chunk, rapid.Bool().Draw(t, "forceDir"))
 		}
 		entries := []*node{top}
 		if top.dir && rapid.Bool().Draw(t, "multi") && len(top.children) > 0 {
@@ -499,10 +524,17 @@ func TestAdd(t *testing.T) {
 		if many {
 			nd, perm = 1, []int{0, 1, 2} // local destination only: 6000+ block puts
 		}
+		// one case in six also allocates a peer nobody can reach: puts to it
+		// fail at the RPC level, which is tolerated as long as another
+		// destination takes the block
+		ghost := !local && !many && rapid.IntRange(0, 5).Draw(t, "ghost") == 0
 		mkAlloc := func() []peer.ID {
 			var a []peer.ID
 			for _, i := range perm[:nd] {
 				a = append(a, dests[i].h.ID())
+			}
+			if ghost {
+				a = append(a, gen.Peers[9])
 			}
 			return a
 		}
@@ -513,6 +545,9 @@ func TestAdd(t *testing.T) {
 			var a []peer.ID
 			for _, i := range perm2[:nd] {
 				a = append(a, dests[i].h.ID())
+			}
+			if ghost {
+				a = append(a, gen.Peers[9])
 			}
 			cluster.allocs = append(cluster.allocs, a)
 		}
@@ -541,6 +576,17 @@ func TestAdd(t *testing.T) {
 			}
 		}
 		firstChunkFault := fault && rapid.IntRange(0, 2).Draw(t, "firstChunkFault") == 0
+		// every sharded case with a fault gets a fault-free dry run first, to
+		// see whether some flush is triggered by a multi-chunk file's first chunk
+		flushFault, flushAligned := fault && shard && !many, false
+		if fault && shard && !firstChunkFault && rapid.IntRange(0, 1).Draw(t, "cborFault") == 0 {
+			// transient failure of the n-th shard-node put on every destination
+			n := rapid.IntRange(1, 3).Draw(t, "cborN")
+			for _, d := range dests {
+				d.failAt, d.always, d.failCbor = 0, false, n
+			}
+			faultAll = true
+		}
 		pinFails := rapid.IntRange(0, 9).Draw(t, "pinFails") == 0
 		cluster.failPin = pinFails
 
@@ -587,31 +633,98 @@ func TestAdd(t *testing.T) {
 		}
 
 		// run the adder
-		var in []files.DirEntry
-		for _, e := range entries {
-			in = append(in, files.FileEntry(e.name, toFiles(e)))
-		}
-		out := make(chan *api.AddedOutput, 64)
-		var outs []*api.AddedOutput
-		var wg sync.WaitGroup
-		wg.Add(1)
-		go func() {
-			defer wg.Done()
-			for o := range out {
-				outs = append(outs, o)
+		runAdd := func() (cid.Cid, error, []*api.AddedOutput) {
+			var in []files.DirEntry
+			for _, e := range entries {
+				in = append(in, files.FileEntry(e.name, toFiles(e)))
 			}
-		}()
-		var dgs adder.ClusterDAGService
-		if shard {
-			dgs = sharding.New(client, po, out)
-		} else {
-			dgs = single.New(client, po, local)
+			out := make(chan *api.AddedOutput, 64)
+			var outs []*api.AddedOutput
+			var wg sync.WaitGroup
+			wg.Add(1)
+			go func() {
+				defer wg.Done()
+				for o := range out {
+					outs = append(outs, o)
+				}
+			}()
+			var dgs adder.ClusterDAGService
+			if shard {
+				dgs = sharding.New(client, po, out)
+			} else {
+				dgs = single.New(client, po, local)
+			}
+			a := adder.New(dgs, params, out)
+			cctx, cancel := context.WithTimeout(ctx, 60*time.Second)
+			root, err := a.FromFiles(cctx, files.NewSliceDirectory(in))
+			cancel()
+			wg.Wait()
+			return root, err, outs
 		}
-		a := adder.New(dgs, params, out)
-		cctx, cancel := context.WithTimeout(ctx, 60*time.Second)
-		root, err := a.FromFiles(cctx, files.NewSliceDirectory(in))
-		cancel()
-		wg.Wait()
+		if flushFault {
+			// dry run without faults to learn which shard node is written by a
+			// flush that the first chunk of a multi-chunk file triggers; that
+			// put then fails (once, everywhere) in the judged run
+			saved := make([][3]interface{}, len(dests))
+			for i, d := range dests {
+				d.mu.Lock()
+				saved[i] = [3]interface{}{d.failAt, d.always, d.failCbor}
+				d.failAt, d.always, d.failCbor, d.failCid = 0, false, 0, ""
+				d.mu.Unlock()
+			}
+			cluster.mu.Lock()
+			fp := cluster.failPin
+			cluster.failPin = false
+			cluster.mu.Unlock()
+			putLogMu.Lock()
+			putLog = nil
+			putLogMu.Unlock()
+			runAdd()
+			putLogMu.Lock()
+			seq := append([]cid.Cid(nil), putLog...)
+			putLogMu.Unlock()
+			first := map[string]bool{}
+			for _, c := range firstChunks(ref) {
+				first[c.String()] = true
+			}
+			var cands []cid.Cid
+			for i := 0; i+1 < len(seq); i++ {
+				if seq[i].Prefix().Codec != cid.DagCBOR {
+					continue
+				}
+				j := i + 1
+				for j < len(seq) && seq[j].Equals(seq[i]) {
+					j++
+				}
+				if j < len(seq) && first[seq[j].String()] {
+					cands = append(cands, seq[i])
+				}
+			}
+			// reset what the dry run left behind
+			for i, d := range dests {
+				d.mu.Lock()
+				d.blocks = map[string][]byte{}
+				d.order = nil
+				d.nput, d.ncbor, d.failCidHit = 0, 0, false
+				d.failAt, d.always, d.failCbor = saved[i][0].(int), saved[i][1].(bool), saved[i][2].(int)
+				d.mu.Unlock()
+			}
+			cluster.mu.Lock()
+			cluster.pins, cluster.ncall, cluster.failPin = nil, 0, fp
+			cluster.mu.Unlock()
+			if len(cands) > 0 && rapid.IntRange(0, 3).Draw(t, "useFlushCand") != 0 {
+				c := cands[rapid.IntRange(0, len(cands)-1).Draw(t, "flushCand")]
+				for _, d := range dests {
+					d.mu.Lock()
+					d.failAt, d.always, d.failCbor, d.failCid = 0, false, 0, c.String()
+					d.mu.Unlock()
+				}
+				desc += " fault=shard-node-before-first-chunk:" + c.String()
+				flushAligned = true
+			}
+		}
+		root, err, outs := runAdd()
+		_ = outs
 
 		// gather what was delivered
 		union := &blockDag{m: map[string][]byte{}}
@@ -644,6 +757,9 @@ func TestAdd(t *testing.T) {
 		}
 		if err != nil {
 			classes = append(classes, "failed")
+			if flushAligned {
+				classes = append(classes, "flush-fault-aligned")
+			}
 			if hasRootPin {
 				t.Fatalf("the add failed (%v) but the root was pinned\ncase: %s", err, desc)
 			}
@@ -721,6 +837,9 @@ func TestAdd(t *testing.T) {
 		}
 		if fault {
 			classes = append(classes, "fault-survived")
+		}
+		if flushAligned {
+			classes = append(classes, "flush-fault-aligned")
 		}
 		leg.Case(desc, nt, classes...)
 	})
